@@ -918,9 +918,11 @@ impl Ty {
                 Some(Ty::Float(*first_bit_width.max(second_bit_width)))
             }
             // distincts
+            // the distinct is only the common type if the other type is actually accepted by it
+            // (e.g. `{uint}` and `distinct i32`, but not `f64` and `distinct i32`)
             (non_distinct, Ty::Distinct { .. }) => {
                 assert_eq!(self, non_distinct);
-                if other.has_semantics_of(self) {
+                if other.has_semantics_of(self) && self.can_fit_into(other) {
                     Some(other.clone())
                 } else {
                     None
@@ -928,7 +930,7 @@ impl Ty {
             }
             (Ty::Distinct { .. }, non_distinct) => {
                 assert_eq!(other, non_distinct);
-                if self.has_semantics_of(non_distinct) {
+                if self.has_semantics_of(non_distinct) && non_distinct.can_fit_into(self) {
                     Some(self.clone())
                 } else {
                     None
